@@ -236,9 +236,15 @@ def check_spa_lists(rep, repo):
     # (b) set: sorted(set(lookup(p) for p in own)) / sorted({..})
     if kind is None and c[0] == 'call' and c[1] == S('sorted') and len(c[2]) == 1:
         s_ = c[2][0]
-        if s_[0] == 'call' and s_[1] == S('set') and len(s_[2]) == 1:
-            s_ = s_[2][0]
-        if s_[0] == 'comp' and len(s_[1]) == 1 and s_[1][0][0][3] == own:
+        was_set = False
+        if s_[0] == 'call' and s_[1] in (S('set'), S('frozenset')) and len(s_[2]) == 1:
+            s_, was_set = s_[2][0], True
+        if s_[0] == 'setcomp':
+            s_, was_set = ('comp', s_[1], s_[2]), True
+        if not was_set and s_[0] == 'comp' and len(s_[1]) == 1 and s_[1][0][0][3] == own and s_[1][0][1] != TRUE:
+            # sorted([lookup(p) for p in own if <not seen before>]): the filter does the de-duplication - judged below, on the list
+            c = s_
+        elif was_set and s_[0] == 'comp' and len(s_[1]) == 1 and s_[1][0][0][3] == own and s_[1][0][1] == TRUE:
             kind = 'set'
             proj = s_[1][0][0]
             if unpad(s_[2]) != lec_id(proj):
